@@ -9,7 +9,7 @@ Implementation: engine A = the program without the replaced predicates + the reg
 program compiled; both get the dynamic facts; every query is enumerated on both.  Model (in Coq): Sem/Native.v nquery for
 both worlds.  All four answer sequences must be equal; a raised exception must reach the consumer as the same object after
 exactly the answers the model delivers before its error."""
-import sys
+import sys, time
 from lib import progs, ast_io, terms, semcheck, consumers
 from lib.terms import g_str, g_list, g_nat, g_term, g_bool
 from lib.progs import V, A, F
@@ -33,6 +33,7 @@ COQ_CHUNK = 12
 DEPTH = 30
 LIMIT = 120
 CAP = 1200
+CONSUMER_TIME = 0.5     # seconds: a query whose plain enumeration takes longer is not run again behind the other consumer APIs
 RULE = ('random programs with conjunction, disjunction, if-then-else, \\+, cut, call/N, once/1, findall/3, = and \\= whose fact predicates '
         '(arity 0-3; rows with atoms, numbers, compound terms, lists, repeated and anonymous variables; 0-4 rows) are replaced, for '
         'several subsets per program including all, by Python generator functions registered with register_function in the '
@@ -238,6 +239,7 @@ def run_queries(yp, E, case, exc_obj):
         W = E._VERIF_VARIABLES
         before = {id(v) for v in list(W) if v._is_bound} if W is not None else set()
         yp._verif_findall_inner = False
+        t_start = time.time()
         try:
             g = yp.query(q[0], objs)
             for x in g:
@@ -273,7 +275,7 @@ def run_queries(yp, E, case, exc_obj):
              'leftover': leftover, 'leaked': leaked, 'findall_inner': bool(getattr(yp, '_verif_findall_inner', False))}
         # the same query behind the other consumer APIs (evaluate_bounded, list(), next()+close()): lib/consumers.py
         o['cons'] = None
-        if consumers.wanted(o) and not any(s.get('raise') is not None for s in case['native']):
+        if consumers.wanted(o) and time.time() - t_start < CONSUMER_TIME and not any(s.get('raise') is not None for s in case['native']):
             o['reclimit'] = sys.getrecursionlimit()
             o['cons'] = consumers.other_consumers(yp, q[0], args, nq, len(out) + len(case['queries']) + len(case['native']), LIMIT)
         out.append(o)
